@@ -26,6 +26,14 @@ Definition C02_ss_xchacha_client := @roundtrip_xchacha_client.
 (* Shadowsocks 2022 XChaCha server packet *)
 Definition C02_ss_xchacha_server := @roundtrip_xchacha_server.
 
+(* a Shadowsocks 2022 server datagram that names ANOTHER client session id (every client session of a configuration shares the key) is not
+   delivered to this session's application and leaves the codec's state unchanged (repair 642ebdf) *)
+Definition C02_ss_foreign_session_datagram_dropped := @client_foreign_session_datagram_dropped.
+(* ... the rest of the run is as if it had not arrived *)
+Definition C02_ss_foreign_session_datagram_invisible := @foreign_session_datagram_invisible_client.
+(* ... and the client of before the repair delivered it (regression sensitivity) *)
+Definition C02_ss_foreign_session_datagram_witness := ToyUdp.foreign_session_datagram_witness.
+
 (* VMess packet mode: one datagram = one chunk, whole or refused *)
 Definition C02_vmess_packet := @body_new_roundtrip_packet.
 
@@ -107,6 +115,9 @@ Check @C02_ss_legacy.
 Check @C02_ss_aes_client.
 Check @C02_ss_aes_client_eih.
 Check @C02_ss_aes_server.
+Check @C02_ss_foreign_session_datagram_dropped.
+Check @C02_ss_foreign_session_datagram_invisible.
+Check C02_ss_foreign_session_datagram_witness.
 Check @C02_ss_xchacha_client.
 Check @C02_ss_xchacha_server.
 Check @C02_vmess_packet.
@@ -126,6 +137,9 @@ Print Assumptions C02_ss_legacy.
 Print Assumptions C02_ss_aes_client.
 Print Assumptions C02_ss_aes_client_eih.
 Print Assumptions C02_ss_aes_server.
+Print Assumptions C02_ss_foreign_session_datagram_dropped.
+Print Assumptions C02_ss_foreign_session_datagram_invisible.
+Print Assumptions C02_ss_foreign_session_datagram_witness.
 Print Assumptions C02_ss_xchacha_client.
 Print Assumptions C02_ss_xchacha_server.
 Print Assumptions C02_vmess_packet.
